@@ -1,5 +1,5 @@
 \* histories of three rounds with differing keys and digests (incl. unsupported digests in between)
-CONSTANTS Types = {"jar", "apk", "pe-dll", "pe-exe", "msi", "cab", "cat", "ps1", "ps1xml", "mof", "manifest", "vsix", "appx", "xap", "macho", "dmg", "pkg", "deb", "rpm", "pgp-detached", "pgp-clearsign"}
+CONSTANTS Types = {"jar", "apk", "pe-dll", "pe-exe", "msi", "cab", "cat", "ps1", "ps1xml", "mof", "manifest", "vsix", "appx", "xap", "macho", "dmg", "pkg", "deb", "rpm", "pgp-detached", "pgp-clearsign", "pgp-inline"}
   KeysX509 = {"rsa2048", "p256"}  KeysPgp = {"rsa2048"}
   Digests = {"md5", "sha256", "sha512"}  Modes = {"standalone"}  MaxRounds = 3  ExportLen = 3  Variant = "code"
 SPECIFICATION Spec
